@@ -152,17 +152,19 @@ def explore(ctx: Ctx, want_live: bool = True, structure: bool = True, contract=N
             if want_live:
                 live = [f for f in fam if f[0].startswith("action:")]
                 live = live[: ctx.scale(60, 300)]
+                deep_left = ctx.scale(60, 30)   # deep fingerprints cost 10-20 ms each: every live request in quick, a prefix in thorough
                 for kind, req, exists in live:
                     ds = sim.describe_state()
                     before = json.dumps(ds, sort_keys=True, default=str)
-                    fp_before = rstate.fingerprint(sim)
+                    deep_left -= 1
+                    fp_before = rstate.fingerprint(sim) if deep_left >= 0 else None
                     with rig.Probe(sim, rig.Snap(sim._request_manager), stub=False) as probe:  # the tree changes as handlers run
                         out, resp = probe.call(req)
                     history.append(list(req))  # live requests change the state too: they are part of the path to later states
                     if True:
                         after = json.dumps(sim.describe_state(), sort_keys=True, default=str)
                         deep = None
-                        if not out.startswith("reached"):   # refused: NOTHING below the simulation object may differ (logs aside)
+                        if not out.startswith("reached") and fp_before is not None:   # refused: NOTHING below the simulation may differ
                             deep = rstate.diff(fp_before, rstate.fingerprint(sim))
                             ctx.count("live:refused-deep-fingerprint-compared")
                             ctx.cov["deep_fingerprint_entries_max"] = max(ctx.cov.get("deep_fingerprint_entries_max", 0), len(fp_before))
@@ -347,7 +349,14 @@ def edits(ctx: Ctx):
                       "a real request-tree edit differs from the model's addKey/removeKey (Props/C05Inst.lean): " + b, {"detail": bad[:6]})
 
 
+def _stage(ctx: Ctx, name: str, t0: float):
+    import time
+    ctx.cov.setdefault("stage_seconds", {})[name] = round(time.time() - t0, 1)
+
+
 def run(ctx: Ctx):
+    import time
+    t0 = time.time()
     with lean_lock():
         ctx.extract("RequestCore", x_core.emit)
         ctx.prove(MODULES, exes=[EXE], leanchecker=ctx.thorough)
@@ -355,6 +364,8 @@ def run(ctx: Ctx):
                        "requests formed from every registered action type with parameters naming existing or missing components, at the "
                        "initial state and at random perturbed states (nodes off/booting, services stopped/disabled, files deleted, software "
                        "uninstalled) of shipped scenarios; non-trivial = not simply reaching its handler; distinct by (scenario, round, request)")
+    _stage(ctx, "lean:C05", t0)
+    t0 = time.time()
     corpus(ctx)
     try:
         contract = rcon.Contract(sorted(registry()))
@@ -362,6 +373,8 @@ def run(ctx: Ctx):
         contract = None
         ctx.notes.append(f"contract tables not readable from drv_c05: {type(e).__name__}: {e}")
     judge(ctx, explore(ctx, contract=contract))
+    _stage(ctx, "R-req+contract-oracle+live", t0)
+    t0 = time.time()
     # contract search: every route-owning class driven into every gate-falsifying state, judged against the hand-written contract
     ctx.cov["rule_contract"] = ("R-contract: one instance of every node / NIC / service / application class, a folder and a file per node "
                                 "class, of a zoo game (every registered node type, every registered software class), of the shipped "
@@ -370,7 +383,12 @@ def run(ctx: Ctx):
                                 "re-sent with the real handlers and compared by deep state fingerprint")
     rcon.search(ctx, registry(), scenarios(ctx), zoo_seeds=[7] if not ctx.thorough else [7, 8, 9],
                 gen_families=[] if not ctx.thorough else [("lan", 3), ("routed", 4), ("dmz", 5)])
+    _stage(ctx, "contract-search+raw-live", t0)
+    t0 = time.time()
     edits(ctx)
+    _stage(ctx, "R-edits", t0)
+    t0 = time.time()
     # static part: schematic request tree (E4) x action templates (E5): C05_action_templates_resolve & co (Props/C05Schema.lean)
     from harness.props import c05x
     c05x.extra(ctx)
+    _stage(ctx, "static part (lean + R-schema + R-guards)", t0)
